@@ -25,6 +25,7 @@ func c10(c *Ctx) {
 	c10lifecycle(c)
 	c10writer(c)
 	c10caller(c)
+	c10panicFirst(c)
 	c10entries(c)
 	workersClamp(c, "C10.R7", "core/mr")
 	// R9: at most the configured number of mappers run at once — the semaphore is sized from the configured count
@@ -520,6 +521,25 @@ func c10caller(c *Ctx) {
 			}
 		default:
 			seen["output"]++
+			// (round 7, R11) the poll of the panic channel that follows the output case: where it yields, the path ends by
+			// re-raising that value after draining the output, and nothing else is asked of it
+			polled := false
+			for _, s2 := range after(px.KindIs(px.EvSelect)) {
+				if !s2.Blocking && s2.SelIndex >= 0 && s2.Addr != nil && fieldLoadDeep(s2.Addr.Strip(false), "channel", nil) {
+					pn := after(px.KindIs(px.EvPanic))
+					d := after(calleeIs(mrPkg + ".drain"))
+					if len(pn) != 1 || pn[0].Val.Strip(false) != s2.Res {
+						return false, "a panic value found by the poll after the output case is not re-raised"
+					}
+					if len(d) != 1 || d[0].Seq > pn[0].Seq {
+						return false, "the output is not drained before the polled panic is re-raised"
+					}
+					polled = true
+				}
+			}
+			if polled {
+				return true, ""
+			}
 			ld := after(calleeIs("core/errorx.(*AtomicError).Load"))
 			if len(ld) != 1 {
 				return false, "the recorded cancel error is not consulted on completion"
@@ -794,4 +814,74 @@ func c10panicHandoff(c *Ctx) {
 	}
 	sort.Strings(bad)
 	c.R.Check(len(bad) == 0 && sites >= 3, rule, mrPkg+".onceChan.channel#capacity", "the channel a recovered panic is handed over on has capacity >= 1 (the single send can never block the goroutine whose remaining deferred work — close(source), finish() — others wait for)", "-", fmt.Sprintf("%d creation sites; %s", sites, strings.Join(bad, "; ")), bad, sites)
+}
+
+// c10panicFirst (R11, round 7): a select picks at random among the cases that are ready. When the caller reaches its
+// final select late — the pipeline has already run to its end — a user panic waiting in the panic channel and the
+// closed (or written) output are ready together, and in half of those runs the output case wins: the call returns
+// ErrReduceNoOutput (or a value) with the user's panic silently dropped. On every path that took the output case and
+// returns normally, the panic channel was therefore polled (a non-blocking receive) after the output was received;
+// and where that poll yields a value, it is re-raised.
+func c10panicFirst(c *Ctx) {
+	rule := "C10.R11"
+	f := c.fn(rule, mrPkg, "mapReduceWithPanicChan")
+	if f == nil {
+		return
+	}
+	hasPanicChan := func(e *px.Event) bool {
+		sel, ok := e.Instr.(*ssa.Select)
+		if !ok {
+			return false
+		}
+		for _, st := range sel.States {
+			if u, ok := st.Chan.(*ssa.UnOp); ok {
+				if fa, ok := u.X.(*ssa.FieldAddr); ok {
+					if pt, ok := fa.X.Type().Underlying().(*types.Pointer); ok {
+						if stt, ok := pt.Elem().Underlying().(*types.Struct); ok && stt.Field(fa.Field).Name() == "channel" {
+							return true
+						}
+					}
+				}
+			}
+		}
+		return false
+	}
+	ps := c.paths(rule, f, px.Config{})
+	outputs := 0
+	c.forall(rule, mrPkg+".mapReduceWithPanicChan#panic-first", "a path that took the output case of the final select returns only after a non-blocking poll of the panic channel found it empty; a value found there is re-raised (select picks at random among ready cases: a late caller would otherwise drop the user's panic)", f, ps, func(p *px.Path) (bool, string) {
+		var main *px.Event
+		for _, s := range p.All(px.KindIs(px.EvSelect)) {
+			if s.SelN == 3 && main == nil {
+				main = s
+			}
+		}
+		if main == nil || main.SelIndex < 0 {
+			return true, ""
+		}
+		ch := main.Addr.Strip(false)
+		if (ch.Kind == px.KCall && ch.Call.Method != nil && ch.Call.Method.Name() == "Done") || fieldLoadDeep(ch, "channel", nil) {
+			return true, "" // context expiry (a context error is an allowed answer) / the panic case itself
+		}
+		outputs++
+		var poll *px.Event
+		for i := main.Seq + 1; i < len(p.Events); i++ {
+			e := &p.Events[i]
+			if e.Kind == px.EvSelect && !e.InDefer && !e.Blocking && hasPanicChan(e) {
+				poll = e
+				break
+			}
+		}
+		if p.Exit == px.ExitReturn {
+			if poll == nil {
+				return false, "the output case returns without polling the panic channel: when both were ready the user's panic is dropped and the call returns normally"
+			}
+			if poll.SelIndex >= 0 {
+				return false, "a value was received from the panic channel and the call still returns normally"
+			}
+		}
+		return true, ""
+	})
+	if outputs == 0 {
+		c.R.Undecided(rule, mrPkg+".mapReduceWithPanicChan#output-case", "the output case of the final select is recognised", "no path took it")
+	}
 }
